@@ -1,6 +1,7 @@
 import PybtexModel.Drv.Json
 import PybtexModel.Drv.C04
 import PybtexModel.Model.BibParse
+import PybtexModel.Model.BibOpts
 import PybtexModel.Spec.Bib
 open Lean
 namespace Pybtex.Drv.C01
@@ -68,6 +69,170 @@ def bibparse (j : Json) : Except String Json := do
   else
     pure (obj [("out", resultJ (parseBib text strict wanted)), ("spec", spec)])
 
-def handlers : List (String × (Json → Except String Json)) := [("bibparse", bibparse)]
+
+/-! ### function-level ops and the options of `Parser(...)` (round 2 extension) -/
+
+def pairsOf (j : Json) (k : String) : Except String (List (Str × Str)) := do
+  (← getArr j k).mapM fun p => do
+    match p with
+    | .arr a =>
+      if a.size = 2 then pure (← jsonToStr a[0]!, ← jsonToStr a[1]!) else throw "pair expected"
+    | _ => throw "pair expected"
+
+def optBool (j : Json) (k : String) : Bool :=
+  match j.getObjVal? k with | .ok (Json.bool true) => true | _ => false
+
+def macrosOf (j : Json) : Except String (List (Str × Str)) :=
+  match j.getObjVal? "macros" with
+  | .ok Json.null => pure Gen.monthMacros
+  | .ok _ => pairsOf j "macros"
+  | _ => pure Gen.monthMacros
+
+def rolesOf (j : Json) : Except String (List Str) :=
+  match j.getObjVal? "roles" with
+  | .ok Json.null => pure Gen.personRoles
+  | .ok _ => getStrList j "roles"
+  | _ => pure Gen.personRoles
+
+/-- `parse_string(text, 'bibtex', macros=…, person_fields=…, keyless_entries=…)`, continue and strict mode -/
+def bibopts (j : Json) : Except String Json := do
+  let text ← getStr j "text"
+  let keyless := optBool j "keyless"
+  let macros ← macrosOf j
+  let roles ← rolesOf j
+  let wanted ← match j.getObjVal? "wanted" with
+    | .ok (Json.arr a) => do pure (some (← a.toList.mapM jsonToStr))
+    | _ => pure none
+  pure (obj [("out", obj [("capture", resultJ (parseBibK keyless text false wanted macros roles)),
+                          ("strict", resultJ (parseBibK keyless text true wanted macros roles))])])
+
+/-- one `Parser(...)`, several texts: `for t in texts: parser.parse_string(t)` -/
+def bibmany (j : Json) : Except String Json := do
+  let texts ← getStrList j "texts"
+  let keyless := optBool j "keyless"
+  let macros ← macrosOf j
+  let roles ← rolesOf j
+  pure (obj [("out", obj [("capture", resultJ (parseBibManyK keyless texts false macros roles)),
+                          ("strict", resultJ (parseBibManyK keyless texts true macros roles))])])
+
+def abortJ : Abort → Json
+  | .syn e => errJ e
+  | .raised e => errJ e
+  | .skip => arr [Json.str "SkipEntry", Json.null, Json.str ""]
+
+def partsJ (fs : List (Str × List Str)) : Json := arr (fs.map fun f => arr [strToJson f.1, strs f.2])
+
+def lowItemJ (i : LowItem) : Json :=
+  match i.cmd with
+  | .string => arr [Json.str "string", optJ strToJson i.fieldName, strs i.value]
+  | .preamble v => arr [Json.str "preamble", strs v]
+  | .entry t k fs => arr [Json.str "entry", strToJson t, optJ strToJson k, partsJ fs]
+
+/-- the macro table as the lookups of the given names -/
+def lookupsJ (m : CIDict Str) (names : List Str) : Json := arr (names.map fun n => optJ strToJson (m.getItem n))
+
+/-- `list(LowLevelParser(text, keyless_entries=…, handle_error=…, macros=…))` -/
+def lowlevel (j : Json) : Except String Json := do
+  let text ← getStr j "text"
+  let keyless := optBool j "keyless"
+  let strict := optBool j "strict"
+  let macros ← macrosOf j
+  let probe ← getStrList j "probe"
+  let r := lowLevel keyless text strict macros
+  pure (obj [("out", obj [("items", arr (r.1.map lowItemJ)), ("errors", arr (r.2.1.errs.map errJ)),
+                          ("raised", optJ errJ r.2.2), ("pos", nat (text.length - r.2.1.rest.length)),
+                          ("lineno", nat r.2.1.ln), ("macros", lookupsJ r.2.1.macros probe)])])
+
+def cmdOf (c : Json) : Except String Cmd := do
+  match c.getObjVal? "preamble" with
+  | .ok _ => pure (.preamble (← getStrList c "preamble"))
+  | _ =>
+    let ty ← getStr c "type"
+    let key ← match c.getObjVal? "key" with
+      | .ok Json.null => pure none
+      | .ok k => pure (some (← jsonToStr k))
+      | _ => pure none
+    let fs ← (← getArr c "fields").mapM fun f => do
+      match f with
+      | .arr a => if a.size = 2 then do
+                    let ps ← (← a[1]!.getArr?).toList.mapM jsonToStr
+                    pure (← jsonToStr a[0]!, ps)
+                  else throw "field expected"
+      | _ => throw "field expected"
+    pure (.entry ty key fs)
+
+/-- `Parser(person_fields=…)`: `process_entry` / `process_preamble` applied to the given commands -/
+def process (j : Json) : Except String Json := do
+  let cmds ← (← getArr j "cmds").mapM cmdOf
+  let roles ← rolesOf j
+  let strict := optBool j "strict"
+  let s0 : St := { rest := [], macros := CIDict.empty, strict := strict, roles := roles }
+  pure (obj [("out", resultJ (processAll cmds s0))])
+
+def patOf (n : Str) : Except String Pat :=
+  match String.ofList n with
+  | "NAME" => pure .name | "KEY_PAREN" => pure .keyParen | "KEY_BRACE" => pure .keyBrace | "NUMBER" => pure .number
+  | "LBRACE" => pure (.lit '{') | "RBRACE" => pure (.lit '}') | "LPAREN" => pure (.lit '(') | "RPAREN" => pure (.lit ')')
+  | "QUOTE" => pure (.lit '"') | "COMMA" => pure (.lit ',') | "EQUALS" => pure (.lit '=') | "HASH" => pure (.lit '#')
+  | "AT" => pure (.lit '@')
+  | x => throw s!"unknown pattern {x}"
+
+def patName : Pat → String
+  | .name => "NAME" | .keyParen => "KEY_PAREN" | .keyBrace => "KEY_BRACE" | .number => "NUMBER"
+  | .lit '{' => "LBRACE" | .lit '}' => "RBRACE" | .lit '(' => "LPAREN" | .lit ')' => "RPAREN"
+  | .lit '"' => "QUOTE" | .lit ',' => "COMMA" | .lit '=' => "EQUALS" | .lit '#' => "HASH" | .lit '@' => "AT"
+  | .lit c => String.singleton c
+
+/-- `LowLevelParser(text).get_token(patterns)`: the token (pattern, value), the position and the line behind it -/
+def token (j : Json) : Except String Json := do
+  let text ← getStr j "text"
+  let pats ← (← getStrList j "pats").mapM patOf
+  let out := match tokenAt pats text with
+    | .ok t s => obj [("token", optJ (fun (p : Pat × Str) => arr [Json.str (patName p.1), strToJson p.2]) t),
+                      ("pos", nat (text.length - s.rest.length)), ("lineno", nat s.ln), ("raised", Json.null)]
+    | .fail a s => obj [("token", Json.null), ("pos", nat (text.length - s.rest.length)), ("lineno", nat s.ln),
+                        ("raised", abortJ a)]
+  pure (obj [("out", out), ("desc", Json.str (descOf pats))])
+
+/-- `LowLevelParser(text, macros=…).parse_value()`: `current_value`, position, line, problems -/
+def value (j : Json) : Except String Json := do
+  let text ← getStr j "text"
+  let strict := optBool j "strict"
+  let macros ← macrosOf j
+  let out := match valueAt text strict macros with
+    | .ok _ s => obj [("value", strs s.curValue), ("pos", nat (text.length - s.rest.length)), ("lineno", nat s.ln),
+                      ("errors", arr (s.errs.map errJ)), ("raised", Json.null)]
+    | .fail a s => obj [("value", Json.null), ("pos", nat (text.length - s.rest.length)), ("lineno", nat s.ln),
+                        ("errors", arr (s.errs.map errJ)), ("raised", abortJ a)]
+  pure (obj [("out", out)])
+
+/-- `textutils.normalize_whitespace` -/
+def normws (j : Json) : Except String Json := do
+  pure (obj [("out", strToJson (normalizeWs (← getStr j "text")))])
+
+/-- `split_name_list` and, name by name, `Person(name)` -/
+def splitnames (j : Json) : Except String Json := do
+  let v ← getStr j "text"
+  pure (obj [("out", obj [("names", strs (splitNameList v)), ("persons", personsSpecJ v)])])
+
+/-- the texts the model hard-codes: pattern descriptions and the kinds of problems with their messages -/
+def consts (_ : Json) : Except String Json := do
+  let pats : List Pat := [.name, .keyParen, .keyBrace, .number, .lit '{', .lit '}', .lit '(', .lit ')', .lit '"',
+                          .lit ',', .lit '=', .lit '#', .lit '@']
+  let k : Str := "K".toList
+  let f : Str := "F".toList
+  let errs : List Err := [⟨.tokenRequired "X", some 1⟩, ⟨.prematureEOF, some 1⟩, ⟨.tooManyBraces, some 1⟩,
+    ⟨.unbalancedBraces, some 1⟩, ⟨.undefinedMacro k, some 1⟩, ⟨.duplicateField k f, none⟩, ⟨.repeatedEntry k, none⟩]
+  pure (obj [("out", obj [("desc", arr (pats.map fun p => arr [Json.str (patName p), Json.str p.desc])),
+                          ("errors", arr (errs.map errJ)),
+                          ("unnamed", strToJson ("unnamed-".toList ++ natToStr 7)),
+                          ("keywords", strs ["string".toList, "preamble".toList, "comment".toList]),
+                          ("months", arr (Gen.monthMacros.map fun p => arr [strToJson p.1, strToJson p.2])),
+                          ("roles", strs Gen.personRoles)])])
+
+def handlers : List (String × (Json → Except String Json)) :=
+  [("bibparse", bibparse), ("c01_bibopts", bibopts), ("c01_bibmany", bibmany), ("c01_lowlevel", lowlevel), ("c01_process", process),
+   ("c01_token", token), ("c01_value", value), ("c01_normws", normws), ("c01_splitnames", splitnames),
+   ("c01_consts", consts)]
 
 end Pybtex.Drv.C01
